@@ -361,7 +361,7 @@ impl Property for C10 {
         "C10"
     }
     fn rule(&self) -> String {
-        "values of every encodable type: field elements (boundary-weighted incl. 0, p-1 and leading-zero-byte values), Vec<Fr>/Vec<u8> of length 0..64, index lists and usize incl. 0, 2^32-1, 2^32, 2^63, witnesses with any path length/direction bytes, proof values, identity tuples, prove/verify requests with any signal; \
+        "values of every encodable type: field elements (boundary-weighted incl. 0, p-1 and leading-zero-byte values), Vec<Fr>/Vec<u8> of length 0..64 and size classes up to 3000 elements / 70000 bytes (255/256/257, 65535/65536), index lists and usize incl. 0, 2^32-1, 2^32, 2^63, witnesses with any path length/direction bytes, proof values, identity tuples, prove/verify requests with any signal; \
          checked: zerokit encoder == independent encoder, proving requests encoded independently (any signal length incl. empty) decode through proof_inputs_to_rln_witness to the same values and the leaf's direction bits, zerokit decoder on independent encoding == value, independent decoder on zerokit encoding == value, JSON and byte->JSON->byte round trips, bigint-JSON decimal strings, and one generated truncation + one extension of every witness encoding is not accepted. \
          non-trivial = value with a zero-length vector, a leading-zero field element, or an integer >= 2^32; distinct by case content".into()
     }
@@ -378,6 +378,9 @@ impl Property for C10 {
             3 => gens::fx().prop_map(Case::Field),
             3 => proptest::collection::vec(gens::fx(), 0..64).prop_map(Case::VecFr),
             2 => proptest::collection::vec(any::<u8>(), 0..64).prop_map(Case::VecU8),
+            // size classes: a few hundred to a few thousand elements
+            1 => (prop_oneof![Just(255usize), Just(256usize), Just(257usize), Just(1024usize), 65usize..3000], gens::fx()).prop_map(|(n, f)| Case::VecFr((0..n).map(|i| crate::models::field::Fx(f.0 + ark_bn254::Fr::from(i as u64))).collect())),
+            1 => (prop_oneof![Just(255usize), Just(256usize), Just(257usize), Just(65535usize), Just(65536usize), 65usize..70000], any::<u8>()).prop_map(|(n, b)| Case::VecU8((0..n).map(|i| b.wrapping_add(i as u8)).collect())),
             2 => proptest::collection::vec(usize_val(), 0..20).prop_map(Case::VecUsize),
             1 => usize_val().prop_map(Case::Usize),
             5 => (any_wit(), any::<u16>(), any::<u8>()).prop_map(|(w, cut, extend)| Case::Witness { w, cut, extend }),
